@@ -149,7 +149,16 @@ void op_final(const Step& s) { FAH& h = H(s, 0); if (shared(h)) count(c_cow_writ
 void op_start(const Step& s) {
 	FAH& h = H(s, 0); if (shared(h)) count(c_cow_writes_on_shared);
 	EF::SymbolType y = sym_num(*h.aut, "x");
-	api_begin(); h.aut->SetStateStart(StateType(s.arg(1)), y); h.model.starts.insert(s.arg(1)); h.model.start_syms[s.arg(1)].insert("x");
+	long how = mod(s.arg(2), 3);
+	api_begin();
+	if (how == 0 || h.model.starts.count(s.arg(1))) { h.aut->SetStateStart(StateType(s.arg(1)), y); h.model.start_syms[s.arg(1)].insert("x"); }
+	else {
+		// the other public way to make a state initial: with a whole set of start symbols, possibly none
+		EF::SymbolSet ys; if (how == 2) ys.insert(y);
+		h.aut->SetExistingStateStart(StateType(s.arg(1)), ys);
+		if (how == 2) h.model.start_syms[s.arg(1)].insert("x");
+	}
+	h.model.starts.insert(s.arg(1));
 	after_mutation(s, "fa_start");
 }
 
@@ -454,7 +463,7 @@ struct FG {
 			switch (r.below(5)) {
 				case 0: case 1: case 2: out.push_back(gen::mk(c, "fa_add", {h}, edge_lit(r, syms))); break;
 				case 3: out.push_back(gen::mk(c, "fa_final", {h, long(r.below(8))})); break;
-				default: out.push_back(gen::mk(c, "fa_start", {h, long(r.below(8))})); break;
+				default: out.push_back(gen::mk(c, "fa_start", {h, long(r.below(8)), long(r.below(3))})); break;
 			}
 		}
 	}
